@@ -20,6 +20,10 @@ inductive Mv where
   | r
   | poll
   | repoll (i : Nat)
+  /-- a new `Ring::poll(None)` call -/
+  | pollInf
+  /-- some completion arrives -/
+  | io
   deriving Repr, DecidableEq
 
 def stepMv (s : St) : Mv → St
@@ -27,6 +31,8 @@ def stepMv (s : St) : Mv → St
   | .r => stepR s
   | .poll => startPoll s
   | .repoll i => repoll s i
+  | .pollInf => startPollT s true
+  | .io => stepIo s
 
 def runMv (s : St) : List Mv → St
   | [] => s
@@ -141,16 +147,19 @@ theorem inv_stepR {s : St} (h : Inv s) : Inv (stepR s) := by
     simpa [hr, RPc.rest] using h11
   | enter n =>
     have hn := h9 n hr
-    refine ⟨h1, ?_, ?_, h4, h5, ?_, ?_, ?_, ?_, ?_, ?_, ?_⟩ <;> simp only [RPc.rest]
+    have hrest : (if s.block = true then RPc.waiting else RPc.w1).rest = [] := by
+      split <;> rfl
+    refine ⟨h1, ?_, ?_, h4, h5, ?_, ?_, ?_, ?_, ?_, ?_, ?_⟩ <;> simp only [hrest]
     · omega
     · omega
     · intro i h hi; have := h6 i h hi; omega
     · intro i h hi; have := h7 i h hi; omega
     · intro i hi; have := h8 i hi; omega
-    · simp
-    · simp
+    · intro n e; split at e <;> cases e
+    · intro h e; split at e <;> cases e
     · simpa [hr, RPc.rest] using h11
-    · simp
+    · intro rest left e; split at e <;> cases e
+  | waiting => exact ⟨h1, h2, h3, h4, h5, h6, h7, h8, h9, h10, h11, h12⟩
   | w1 =>
     refine ⟨h1, h2, h3, h4, h5, h6, h7, h8, ?_, ?_, ?_, ?_⟩ <;> simp [RPc.rest]
     simpa [hr, RPc.rest] using h11
@@ -187,8 +196,19 @@ theorem inv_stepR {s : St} (h : Inv s) : Inv (stepR s) := by
       omega
     · simp
 
-theorem inv_startPoll {s : St} (h : Inv s) : Inv (startPoll s) := by
-  unfold startPoll
+theorem inv_startPollT {s : St} (h : Inv s) (inf : Bool) : Inv (startPollT s inf) := by
+  unfold startPollT
+  split
+  · rename_i hr
+    obtain ⟨h1, h2, h3, h4, h5, h6, h7, h8, h9, h10, h11, h12⟩ := h
+    refine ⟨h1, h2, h3, h4, h5, h6, h7, h8, ?_, ?_, ?_, ?_⟩ <;> simp [RPc.rest]
+    simpa [hr, RPc.rest] using h11
+  · exact h
+
+theorem inv_startPoll {s : St} (h : Inv s) : Inv (startPoll s) := inv_startPollT h false
+
+theorem inv_stepIo {s : St} (h : Inv s) : Inv (stepIo s) := by
+  unfold stepIo
   split
   · rename_i hr
     obtain ⟨h1, h2, h3, h4, h5, h6, h7, h8, h9, h10, h11, h12⟩ := h
@@ -212,6 +232,8 @@ theorem inv_stepMv {s : St} (h : Inv s) (m : Mv) : Inv (stepMv s m) := by
   | r => exact inv_stepR h
   | poll => exact inv_startPoll h
   | repoll i => exact inv_repoll h i
+  | pollInf => exact inv_startPollT h true
+  | io => exact inv_stepIo h
 
 theorem inv_runMv {s : St} (h : Inv s) (ms : List Mv) : Inv (runMv s ms) := by
   induction ms generalizing s with
@@ -343,7 +365,8 @@ commit): from `.enter n` the ring thread goes to `.w1` and `.w2 _` — the first
 two steps of `wake_blocked_futures` — whatever `n` is and whatever the kernel
 consumed (also nothing: ETIME / EINTR), and from there gives up only if it sees
 no free slot. -/
-theorem blocked_enter_always_wakes (s : St) (n : Nat) (hr : s.r = .enter n) :
+theorem blocked_enter_always_wakes (s : St) (n : Nat) (hr : s.r = .enter n)
+    (hb : s.block = false) :
     (stepR s).r = .w1 ∧
     (stepR s).H = s.H + min n (s.T - s.H) ∧
     (stepR (stepR s)).r = .w2 (s.H + min n (s.T - s.H)) ∧
@@ -351,7 +374,7 @@ theorem blocked_enter_always_wakes (s : St) (n : Nat) (hr : s.r = .enter n) :
       (if s.len - (s.T - (s.H + min n (s.T - s.H))) = 0 then RPc.idle
        else .tryLock (s.len - (s.T - (s.H + min n (s.T - s.H))))) := by
   have e1 : stepR s = { s with H := s.H + min n (s.T - s.H), r := .w1 } := by
-    simp [stepR, hr]
+    simp [stepR, hr, hb]
   refine ⟨?_, ?_, ?_, ?_⟩
   · rw [e1]
   · rw [e1]
@@ -369,13 +392,22 @@ theorem stepF_r (s : St) (i : Nat) : (stepF s i).r = s.r := by
 theorem repoll_r (s : St) (i : Nat) : (repoll s i).r = s.r := by
   unfold repoll; split <;> rfl
 
-theorem startPoll_r (s : St) (h : s.r ≠ .idle) : (startPoll s).r = s.r := by
-  unfold startPoll; split
+theorem startPollT_r (s : St) (inf : Bool) (h : s.r ≠ .idle) : (startPollT s inf).r = s.r := by
+  unfold startPollT; split
   · rename_i e; exact absurd e h
   · rfl
 
-theorem runMv_others_r (s : St) (ms : List Mv) (hm : ∀ m ∈ ms, m ≠ Mv.r) (h : s.r ≠ .idle) :
-    (runMv s ms).r = s.r := by
+theorem startPoll_r (s : St) (h : s.r ≠ .idle) : (startPoll s).r = s.r := startPollT_r s false h
+
+theorem stepIo_r (s : St) (h : s.r ≠ .waiting) : (stepIo s).r = s.r := by
+  unfold stepIo; split
+  · rename_i e; exact absurd e h
+  · rfl
+
+/-- Only the ring thread's own steps (and, while it waits in the kernel, a completion) move
+the ring thread. -/
+theorem runMv_others_r (s : St) (ms : List Mv) (hm : ∀ m ∈ ms, m ≠ Mv.r) (h : s.r ≠ .idle)
+    (hw : s.r ≠ .waiting) : (runMv s ms).r = s.r := by
   induction ms generalizing s with
   | nil => rfl
   | cons m ms ih =>
@@ -386,8 +418,35 @@ theorem runMv_others_r (s : St) (ms : List Mv) (hm : ∀ m ∈ ms, m ≠ Mv.r) (
       | r => exact absurd rfl (hm .r (List.mem_cons_self))
       | poll => exact startPoll_r s h
       | repoll i => exact repoll_r s i
+      | pollInf => exact startPollT_r s true h
+      | io => exact stepIo_r s hw
     show (runMv (stepMv s m) ms).r = s.r
-    rw [ih (stepMv s m) hm' (by rw [e]; exact h), e]
+    rw [ih (stepMv s m) hm' (by rw [e]; exact h) (by rw [e]; exact hw), e]
+
+theorem stepF_block (s : St) (i : Nat) : (stepF s i).block = s.block := by
+  unfold stepF
+  cases s.f[i]? with
+  | none => rfl
+  | some pc =>
+    cases pc <;> simp only [setF] <;> (try split) <;> rfl
+
+/-- The wait decision of the call in progress is only taken by the ring thread. -/
+theorem runMv_others_block (s : St) (ms : List Mv) (hm : ∀ m ∈ ms, m ≠ Mv.r) :
+    (runMv s ms).block = s.block := by
+  induction ms generalizing s with
+  | nil => rfl
+  | cons m ms ih =>
+    have hm' : ∀ m ∈ ms, m ≠ Mv.r := fun x hx => hm x (List.mem_cons_of_mem _ hx)
+    have e : (stepMv s m).block = s.block := by
+      cases m with
+      | f i => exact stepF_block s i
+      | r => exact absurd rfl (hm .r (List.mem_cons_self))
+      | poll => simp only [stepMv, startPoll, startPollT]; split <;> rfl
+      | repoll i => simp only [stepMv, repoll]; split <;> rfl
+      | pollInf => simp only [stepMv, startPollT]; split <;> rfl
+      | io => simp only [stepMv, stepIo]; split <;> rfl
+    show (runMv (stepMv s m) ms).block = s.block
+    rw [ih (stepMv s m) hm', e]
 
 theorem stepR_w1 (s : St) (h : s.r = .w1) : (stepR s).r = .w2 s.H := by
   simp [stepR, h]
@@ -395,18 +454,23 @@ theorem stepR_w1 (s : St) (h : s.r = .w1) : (stepR s).r = .w2 s.H := by
 /-- The same in every interleaving: whatever the futures do in between, the two
 ring-thread steps after `.enter n` are `.w1` and `.w2 _`. -/
 theorem blocked_enter_always_wakes_interleaved (s : St) (n : Nat) (hr : s.r = .enter n)
-    (a b c : List Mv) (ha : ∀ m ∈ a, m ≠ Mv.r) (hb : ∀ m ∈ b, m ≠ Mv.r) (hc : ∀ m ∈ c, m ≠ Mv.r) :
+    (hblk : s.block = false) (a b c : List Mv) (ha : ∀ m ∈ a, m ≠ Mv.r) (hb : ∀ m ∈ b, m ≠ Mv.r) (hc : ∀ m ∈ c, m ≠ Mv.r) :
     (runMv s (a ++ [.r] ++ b)).r = .w1 ∧ ∃ h, (runMv s (a ++ [.r] ++ b ++ [.r] ++ c)).r = .w2 h := by
-  have e0 : (runMv s a).r = .enter n := by rw [runMv_others_r s a ha (by simp [hr]), hr]
+  have e0 : (runMv s a).r = .enter n := by
+    rw [runMv_others_r s a ha (by simp [hr]) (by simp [hr]), hr]
+  have e0b : (runMv s a).block = false := by rw [runMv_others_block s a ha, hblk]
   have e1 : (runMv s (a ++ [.r])).r = .w1 := by
     rw [runMv_append]
-    exact (blocked_enter_always_wakes _ n e0).1
+    exact (blocked_enter_always_wakes _ n e0 e0b).1
   have e2 : (runMv s (a ++ [.r] ++ b)).r = .w1 := by
-    rw [runMv_append, runMv_others_r _ b hb (by simp [e1]), e1]
+    rw [runMv_append, runMv_others_r _ b hb (by simp [e1]) (by simp [e1]), e1]
   refine ⟨e2, (runMv s (a ++ [.r] ++ b)).H, ?_⟩
   rw [runMv_append, runMv_others_r _ c hc]
   · rw [runMv_append]
     exact stepR_w1 _ e2
+  · rw [runMv_append]
+    show (stepR _).r ≠ _
+    rw [stepR_w1 _ e2]; simp
   · rw [runMv_append]
     show (stepR _).r ≠ _
     rw [stepR_w1 _ e2]; simp
@@ -442,16 +506,16 @@ theorem drop_min_length {α : Type} (n : Nat) (l : List α) : l.drop (min n l.le
 /-- The state after a quiet poll, explicitly. -/
 theorem quietPoll_eq (s : St) (hr : s.r = .idle) (hl : 1 ≤ s.len) (ht : s.H ≤ s.T) :
     quietPoll s = { s with H := s.T, woken := s.woken ++ s.blocked.take s.len,
-                           blocked := s.blocked.drop s.len } := by
-  obtain ⟨len, H, T, subLock, blocked, f, r, woken, pushed⟩ := s
+                           blocked := s.blocked.drop s.len, inf := false, block := false } := by
+  obtain ⟨len, H, T, subLock, blocked, f, r, woken, pushed, inf, block⟩ := s
   simp only at hr hl ht
   subst hr
   have e2 : H + (T - H) = T := by omega
   have e4 : ¬ len = 0 := by omega
   cases blocked with
-  | nil => simp [quietPoll, runMv, stepMv, startPoll, stepR, e2, e4]
+  | nil => simp [quietPoll, runMv, stepMv, startPoll, startPollT, stepR, e2, e4]
   | cons b bs =>
-    simp [quietPoll, runMv, stepMv, startPoll, stepR, e2, e4]
+    simp [quietPoll, runMv, stepMv, startPoll, startPollT, stepR, e2, e4]
 
 /-- **Bounded response**: when no future is in the middle of a poll, ONE
 `Ring::poll` of the ring thread — in which nothing completes: the kernel only
@@ -551,6 +615,8 @@ def stepMvOld (s : St) : Mv → St
   | .r => stepROld s
   | .poll => startPoll s
   | .repoll i => repoll s i
+  | .pollInf => startPollT s true
+  | .io => stepIo s
 
 def runMvOld (s : St) : List Mv → St
   | [] => s
@@ -586,19 +652,22 @@ theorem lostState_reachable : Reachable lostState :=
 /-- In the old protocol a poll that finds the queue empty does nothing at all:
 `to_submit = 0`, the kernel consumes nothing, ETIME, no wake pass. -/
 theorem quietPollOld_empty (s : St) (hr : s.r = .idle) (he : s.T - s.H = 0) :
-    quietPollOld s = s := by
-  obtain ⟨len, H, T, subLock, blocked, f, r, woken, pushed⟩ := s
+    (quietPollOld s).blocked = s.blocked ∧ (quietPollOld s).woken = s.woken ∧
+    (quietPollOld s).r = .idle ∧ (quietPollOld s).T = s.T ∧ (quietPollOld s).H = s.H := by
+  obtain ⟨len, H, T, subLock, blocked, f, r, woken, pushed, inf, block⟩ := s
   simp only at hr he
   subst hr
-  simp [quietPollOld, runMvOld, stepMvOld, startPoll, stepROld, stepR, he]
+  simp [quietPollOld, runMvOld, stepMvOld, startPoll, startPollT, stepROld, stepR, he]
 
 theorem quietPollsOld_empty (k : Nat) (s : St) (hr : s.r = .idle) (he : s.T - s.H = 0) :
-    quietPollsOld k s = s := by
-  induction k with
-  | zero => rfl
+    (quietPollsOld k s).blocked = s.blocked ∧ (quietPollsOld k s).woken = s.woken := by
+  induction k generalizing s with
+  | zero => exact ⟨rfl, rfl⟩
   | succ k ih =>
-    show quietPollsOld k (quietPollOld s) = s
-    rw [quietPollOld_empty s hr he, ih]
+    have q := quietPollOld_empty s hr he
+    have := ih (quietPollOld s) q.2.2.1 (by rw [q.2.2.2.1, q.2.2.2.2]; exact he)
+    rw [q.1, q.2.1] at this
+    exact this
 
 /-- **The repaired defect.** `lostState` is reached by the old protocol; it is
 quiet, future 1 is `Pending` with its waker registered and the queue has room
@@ -609,19 +678,18 @@ wakes it. -/
 theorem blocked_old_enter_loses_wake :
     runMvOld (init 1 2 0) lostTrace = lostState ∧ Quiet lostState ∧
     lostState.f[1]? = some FPc.pending ∧ lostState.T - lostState.H < lostState.len ∧
-    (∀ k, quietPollsOld k lostState = lostState) ∧
     (∀ k, (quietPollsOld k lostState).blocked = [1] ∧ (quietPollsOld k lostState).woken = []) ∧
     (quietPoll lostState).woken = [1] ∧ (quietPoll lostState).blocked = [] := by
-  refine ⟨lostState_old, by decide, by decide, by decide, ?_, ?_, by decide, by decide⟩
-  · intro k; exact quietPollsOld_empty k lostState rfl rfl
-  · intro k; rw [quietPollsOld_empty k lostState rfl rfl]; exact ⟨rfl, rfl⟩
+  refine ⟨lostState_old, by decide, by decide, by decide, ?_, by decide, by decide⟩
+  intro k
+  exact quietPollsOld_empty k lostState rfl rfl
 
 /-- The old protocol loses the wake in EVERY quiet state with an empty queue,
 whatever is in the blocked list. -/
 theorem blocked_old_enter_loses_wake_general (k : Nat) (s : St) (hr : s.r = .idle)
     (he : s.T - s.H = 0) :
     (quietPollsOld k s).blocked = s.blocked ∧ (quietPollsOld k s).woken = s.woken := by
-  rw [quietPollsOld_empty k s hr he]; exact ⟨rfl, rfl⟩
+  exact quietPollsOld_empty k s hr he
 
 /-! ### Non-vacuity: concrete reachable states satisfying the hypotheses -/
 
